@@ -313,8 +313,23 @@ def run(ctx):
                     dur = dur + rng.choice([0.25, 0.5, 0.75])
                     ctx.event('validity-with-fractional-seconds')
                 aware = rng.random() < 0.3
+                if aware and rng.random() < 0.4:
+                    # instants next to a daylight-saving transition of the zone they will be given in: 86400 s later is another wall-clock time
+                    start = rng.choice([datetime.datetime(2024, 3, 9, 17, 0, 0), datetime.datetime(2024, 3, 10, 6, 30, 0), datetime.datetime(2024, 11, 3, 5, 30, 0),
+                                        datetime.datetime(2024, 11, 2, 12, 0, 0), datetime.datetime(2025, 3, 30, 0, 30, 0), datetime.datetime(2025, 10, 26, 0, 30, 0)])
+                    dur = rng.choice([0, 3600, 7200, 86400, 86400 * 2, 30 * 86400])
+                    want_zone = True
+                else:
+                    want_zone = False
                 st = start.replace(tzinfo=UTC) if aware else start
-                if aware and rng.random() < 0.5 and 1001 < start.year < 9900:
+                if want_zone:
+                    try:
+                        import zoneinfo
+                        st = st.astimezone(zoneinfo.ZoneInfo(rng.choice(['America/New_York', 'Europe/Berlin'])))
+                        ctx.event('aware-instant-in-a-zone-with-daylight-saving')
+                    except Exception:   # noqa  (no time-zone database on this machine)
+                        ctx.event('observation:no-tz-database')
+                if aware and not want_zone and rng.random() < 0.5 and 1001 < start.year < 9900:
                     # the same instant given with another UTC offset (an aware datetime names an instant, whatever its offset)
                     off = datetime.timedelta(minutes=rng.choice([540, -210, 345, -720, 60, 1]))
                     st = st.astimezone(datetime.timezone(off))
@@ -395,5 +410,7 @@ def run(ctx):
     ctx.need_event('key-locator-wire-form-32-octets')
     ctx.need_event('validity-with-fractional-seconds')
     ctx.need_event('validity-starting-now')
+    if not ctx.events.get('observation:no-tz-database'):
+        ctx.need_event('aware-instant-in-a-zone-with-daylight-saving')
     ctx.assumptions = ['self_sign/sign_req read the real clock (datetime.now is not patchable): their instants are checked within 5 s',
                        'years < 1000 are outside the generated domain (no four-digit year)']
